@@ -144,6 +144,7 @@ func init() {
 			{"R25.3", "replicate exactly what was logged, after it is durable; replica decode = WAL decode", ruleReplicateWhatWasLogged},
 			{"R25.5", "each write set is placed with the year of its own file path", ruleReplicaYearFromOwnPath},
 			{"R28.6", "the bytes queued for the replicas are not backed by a reusable buffer", ruleScratchBufferDoesNotEscape},
+			{"R30.5", "the replica rebuilds daily epochs with calendar arithmetic", ruleDailyIndexToTimeOnCalendar},
 		},
 	})
 	register(&Property{
@@ -154,6 +155,7 @@ func init() {
 			{"R26.1", "the stream map is guarded; published channels are closed safely", ruleStreamMapGuarded},
 			{"R26.4", "the stream map key identifies one stream", ruleStreamKeyLossless},
 			{"R26.5", "the fan-out to the replicas is a blocking send to every replica", ruleFanOutBlocking},
+			{"R26.6", "a replica that goes away is always deregistered", ruleReplicaDeregistered},
 		},
 	})
 	register(&Property{
@@ -162,6 +164,8 @@ func init() {
 		NotCovered:  "msgpack library behaviour, value equality.",
 		Rules: []Rule{
 			{"R27.1", "wire type tables are bijective and agree with the decoders", ruleWireTypeTables},
+			{"R27.5", "the wire type string is looked up as received", ruleTypeStringLookedUpVerbatim},
+			{"R18.8", "the codec keeps no package-level memo between datasets", ruleNoNewSharedPackageState},
 			{"R13.1", "merge guard compares types", ruleAppendComparesTypes},
 		},
 	})
@@ -174,6 +178,7 @@ func init() {
 			{"R28.2", "no length is narrowed without a bound", ruleNoLossyNarrowing},
 			{"R28.5", "the schema encoding does not shorten names", ruleSchemaEncodingLossless},
 			{"R28.6", "TG bytes kept for decoding are not backed by a reusable read buffer", ruleScratchBufferDoesNotEscape},
+			{"R28.7", "a write command with an empty payload is decoded", ruleEmptyPayloadDecodes},
 			// R28.3 (DSVToBytes error swallowed in serializeTG) removed: DSVToBytes cannot fail for
 			// the operand types it is given, so no failing input exists (DESIGN.md §7).
 		},
@@ -186,6 +191,7 @@ func init() {
 			{"R29.1", "column extraction is total and width-correct", ruleColumnExtraction},
 			{"R29.2", "writer and reader agree on the row layout; coercion errors", ruleRowLayoutAgreement},
 			{"R29.4", "column offsets and strides reach the row buffer exactly (no division/shift/mask without an alignment test)", ruleOffsetsExact},
+			{"R18.8", "row → column conversion keeps no package-level memo between schemas", ruleNoNewSharedPackageState},
 		},
 	})
 	register(&Property{
@@ -197,6 +203,7 @@ func init() {
 			{"R30.2", "one time-zone source", ruleOneTimezoneSource},
 			{"R30.3", "intraday slots are a function of absolute time (no wall-clock fields)", ruleIndexFromAbsoluteTime},
 			{"R30.4", "slot → offset arithmetic is 64-bit and never narrows", ruleOffsetArithmetic64},
+			{"R30.5", "the daily slot → time mapping is calendar arithmetic", ruleDailyIndexToTimeOnCalendar},
 		},
 	})
 	register(&Property{
@@ -206,6 +213,7 @@ func init() {
 		Rules: []Rule{
 			{"R32.1", "every applied write is recorded and dispatched once; matching", ruleTriggerDispatch},
 			{"R18.8", "trigger matching keeps no package-level memo shared between matchers", ruleNoNewSharedPackageState},
+			{"R32.5", "the per-file write list is not filtered before the triggers see it", ruleTriggerListUnfiltered},
 			{"R28.6", "records handed to the asynchronous triggers are not backed by a reusable buffer", ruleScratchBufferDoesNotEscape},
 		},
 	})
